@@ -238,6 +238,24 @@ package parse
 //@   maypanic
 //@   ensures [no-endpoint-is-current-afterwards] s.endpointName == ""
 
+// Every declaration of a collector records its location (a collector declared again in a later block gets one more).
+//@ func (*TreeShapeListener).EnterCollector
+//@   maypanic
+//@   ghostset @store:F.sysl.Endpoint.SourceContexts located
+//@   ensures [every-declaration-records-its-location] ghost("located")
+
+// Header attributes of a type that is declared again are all merged into the type: patterns are appended to the
+// patterns it has, or become its patterns when it has none; any other attribute is taken over.
+//@ func (*TreeShapeListener).EnterTable_def
+//@   maypanic
+//@   loop 0 step [every-header-attribute-is-merged] in(k, type1.Attrs)
+
+// A typed path variable appears in the REST path as it is written in the text (escapes are decoded once, when the
+// whole path is closed).
+//@ func (*TreeShapeListener).EnterHttp_path_var_with_type
+//@   maypanic
+//@   assert @setfield:F.parse.TreeShapeListener.endpointName [path-keeps-the-variable-as-written] contains(stored, var_name)
+
 // The primary key of a table declared over several blocks is only ever extended: the key holder is created when
 // there is none, and a block adds its own ~pk fields behind the key columns recorded so far.
 //@ func (*TreeShapeListener).ExitTable
